@@ -252,6 +252,9 @@ def exOpts : ConfigOptions := { setChunkSize := some 4096, setChunkMinSize := so
 
 example : apply exOpts exCfg = .ok { exCfg with chunkSize := some 4096, chunkMinSize := some 1, treepackGrowfactor := some 3 } := by
   decide
+/-- huge sizes are accepted (the smoke runs back up, check and restore with them: seeded change C18-2) -/
+example : (apply { setChunkSize := some (2 ^ 63), setChunkMinSize := some (2 ^ 63), setChunkMaxSize := some u64Max } exCfg).isOk = true
+    ∧ (apply { setChunker := some .fixedSize, setChunkSize := some u64Max } exCfg).isOk = true := by decide
 example : apply { setVersion := some 1 } exCfg = .error (.err .unsupported) := by decide
 example : apply { setChunkMinSize := some 0 } exCfg = .error (.err .unsupported) := by decide
 example : (applyConfig ⟨exCfg, 1⟩ exOpts).2 = .ok true := by decide
